@@ -396,6 +396,8 @@ func twin(role string, c cfg, histPath string) {
 			kd = strings.Join(ks, ",")
 		}
 		fmt.Printf("blk %d %s => %x %s %s %s %s\n", res.Height, kd, res.AppHash, chainx.Codes(res), chainx.ValUpdates(res), chainx.StateDigest(st), chainx.RawDigest(n))
+		// runtime monitor of the coherence invariant after block execution (both twins)
+		fmt.Printf("coh %d => cap=%d post=%s store=%s\n", res.Height, c.cacheCap, cacheDump(n), storeDump(n))
 		if c.restarts > 0 && (bi+1)%c.restarts == 0 {
 			e.restart()
 			fmt.Printf("restart %d\n", res.Height)
@@ -491,6 +493,9 @@ func main() {
 			if strings.HasPrefix(l, "blk ") {
 				t.Line("A/blk", true, "A %s", l)
 			}
+			if strings.HasPrefix(l, "coh ") {
+				t.Line("A/coh", true, "A %s", l)
+			}
 		}
 		for _, l := range res.b {
 			f := strings.Fields(l)
@@ -499,6 +504,8 @@ func main() {
 				t.Line("B/blk", true, "B %s", l)
 			case "restart":
 				t.Line("B/restart", false, "B %s", l)
+			case "coh":
+				t.Line("B/coh", true, "B %s", l)
 			case "act":
 				acts++
 				t.Line("B/act/"+f[1], true, "B %s", l)
